@@ -74,28 +74,29 @@ type podState struct {
 }
 
 type poolMon struct {
-	mu      sync.Mutex
-	clock   atomic.Int64
-	r       *monitor.Result
-	prop    string
-	hid     int
-	cfg     poolCfg
-	holds   map[netip.Addr]*hold
-	pods    map[string]*podState
-	infl    map[string]int64 // pod -> allocate call time
-	unasg   map[netip.Addr]int64
-	delInv  map[string]int64
-	delInf  map[string]map[string]bool
-	gone    map[netip.Addr]int64
-	events  []string
-	win     map[string]int64
-	issued  map[netip.Addr]string
-	loadIn  map[string]int // eni -> Load calls in flight
-	create  int            // creates in flight
-	asgIn   map[string]int // eni/family -> addresses being assigned
-	primary map[netip.Addr]bool
-	special map[string]string // eni -> trunk|erdma
-	stopped bool
+	noGoneClause bool // C04 with drift: a DEL whose outcome is unknown un-holds at call time, the pod may legitimately get its own (invalidated) address back; C01 judges this clause
+	mu           sync.Mutex
+	clock        atomic.Int64
+	r            *monitor.Result
+	prop         string
+	hid          int
+	cfg          poolCfg
+	holds        map[netip.Addr]*hold
+	pods         map[string]*podState
+	infl         map[string]int64 // pod -> allocate call time
+	unasg        map[netip.Addr]int64
+	delInv       map[string]int64
+	delInf       map[string]map[string]bool
+	gone         map[netip.Addr]int64
+	events       []string
+	win          map[string]int64
+	issued       map[netip.Addr]string
+	loadIn       map[string]int // eni -> Load calls in flight
+	create       int            // creates in flight
+	asgIn        map[string]int // eni/family -> addresses being assigned
+	primary      map[netip.Addr]bool
+	special      map[string]string // eni -> trunk|erdma
+	stopped      bool
 }
 
 func newPoolMon(r *monitor.Result, prop string, hid int, cfg poolCfg) *poolMon {
@@ -314,7 +315,7 @@ func (m *poolMon) ack(pod string, tCall int64, res *eni.LocalIPResource, cloudHa
 		if tu, ok := m.unasg[a]; ok && tu < tCall {
 			m.violate("C01", "C01.b-handout-after-unassign", "unassign", fmt.Sprintf("address %s handed to %s although the daemon invoked UnAssign for it at %d (request invoked at %d)", a, pod, tu, tCall))
 		}
-		if tg, ok := m.gone[a]; ok && tg < tCall {
+		if tg, ok := m.gone[a]; ok && tg < tCall && !m.noGoneClause {
 			m.violate("C01", "C01.b-handout-after-sync-removed", "sync", fmt.Sprintf("address %s handed to %s although a completed cloud sync (at %d) had seen it removed (request invoked at %d)", a, pod, tg, tCall))
 		}
 		if !cloudHas[a] {
